@@ -212,4 +212,10 @@ def write(files, chains, slots=None, slack=0xFF):
         entry = (bytes(f["name"][:8]).ljust(8, b" ") + bytes(f["ext"][:3]).ljust(3, b" ") +
                  bytes([f["ftype"], f["dtype"], chain[0], last >> 8, last & 0xFF]) + bytes(16))
         img[DIR_OFFSET + 32 * slot:DIR_OFFSET + 32 * slot + 32] = entry
+    if slots:
+        # Disk BASIC stops scanning at the first never-used ($FF) entry: gaps in front of live entries are
+        # deleted entries (first byte $00, the rest is what the killed file left behind)
+        for slot in range(max(slots)):
+            if slot not in slots:
+                img[DIR_OFFSET + 32 * slot:DIR_OFFSET + 32 * slot + 32] = b"\x00ILLED  BAS\x00\x00" + bytes([slot % 68]) + b"\x00\x40" + bytes(16)
     return bytes(img)
